@@ -85,7 +85,13 @@ def event_times(tr):
     pend, out = {}, []
     for leg in tr["legs"]:
         pend.update(leg["times"])
-        out.append(pend.get(leg["chosen"]))
+        t = pend.get(leg["chosen"])
+        if t is None and tr.get("job", {}).get("resume"):
+            # resumed run: the candidate was pushed before the dump; every moving unit of the out-state carries the event time
+            ts = {v[2] for v in leg.get("out", {}).values() if v[1] is not None and v[2] is not None}
+            if len(ts) == 1:
+                t = next(iter(ts))
+        out.append(t)
         for h in leg["trashed"]:
             pend.pop(h, None)
     return out
@@ -108,11 +114,25 @@ def oracle_c07(tr, fail, stats):
     prev_t = None
     speed0 = None
     ctx_id = lambda i: {"ini": meta["ini"], "seed": meta["seed"], "leg": i, "job": tr.get("job")}
+    pend = {}
     for i, leg in enumerate(tr["legs"]):
         t = ets[i]
         post = leg["post"]
+        # the committed candidate must be an earliest one among the current candidates (mechanism: the scheduler returns events in
+        # time order); candidates pushed before a dump are unknown in a resumed trace and are simply not compared
+        pend.update(leg["times"])
+        mine = pend.get(leg["chosen"])
+        if mine is not None:
+            early = [(h, x) for h, x in pend.items() if h != leg["chosen"] and tlt(x, mine)]
+            if early:
+                fail("C07:committed-event-is-not-the-earliest-current-candidate",
+                     {**ctx_id(i), "committed": [meta["handlers"][leg["chosen"]], mine], "earlier_pending": [[meta["handlers"][h], x] for h, x in early[:3]]},
+                     "an event was committed although another current candidate event has a strictly smaller time")
+        for h in leg["trashed"]:
+            pend.pop(h, None)
         if t is None:
-            fail("C07:event-without-time", ctx_id(i), "committed handler has no recorded candidate time")
+            if not tr.get("job", {}).get("resume"):
+                fail("C07:event-without-time", ctx_id(i), "committed handler has no recorded candidate time")
             pre = post
             continue
         if prev_t is not None and tlt(t, prev_t):
@@ -212,6 +232,11 @@ def oracle_c08(tr, fail, stats):
             created[h] = (i, ids, pre)
         h = leg["chosen"]
         tag = meta["handlers"][h][0]
+        if "pending" in leg and h not in leg["pending"].get(tag, []):
+            fail("C08:committed-event-of-a-trashed-handler",
+                 {"ini": meta["ini"], "seed": meta["seed"], "leg": i, "handler": meta["handlers"][h], "pending": leg["pending"].get(tag),
+                  "job": tr.get("job")},
+                 "the scheduler returned a handler whose event had been trashed (it is not among the running handlers of its tagger)")
         if kinds[tag] == "interaction" and h in created and created[h][1] is not None:
             j, ids, snap0 = created[h]
             stats["c08_commits"] = stats.get("c08_commits", 0) + 1
